@@ -12,6 +12,7 @@ Pairs that implement the same function with different numeric algorithms end UND
 """
 from laneflow import term as tm
 from laneflow import poly as P
+from laneflow.poly import Poly
 from laneflow import gtypes as G
 from laneflow import runner as R
 from laneflow import rulelib as L
@@ -162,12 +163,59 @@ def pair_case(op, T, prec, isa, wxyz=False):
                 continue
             if approx:
                 res.append(R.ob(oid, 'approx_only_lowp', R.PROVED, 'approximation atoms appear on a lowp type only'))
-                res.append(R.ob(oid, 'class_' + cls, R.UNDECIDED, 'lowp approximation vs exact formula: accuracy (2^-11) is a numeric bound, not decided'))
+                st, detail = approx_within_bound(t_p, t_s, approx, rs.elem * 8)
+                res.append(R.ob(oid, 'class_' + cls, st, detail, where=R.where_of(its, t_s) if st == R.REFUTED else None, kernel=ks.source() + '\n' + kp.source()))
                 continue
             st, detail = compare_builds(t_p, t_s, cls, rs, pc)
             res.append(R.ob(oid, 'class_' + cls, st, detail, where=R.where_of(its, t_s) if st != R.PROVED else None, kernel=ks.source() + '\n' + kp.source()))
         return res
     return R.Case(cname, [kp, ks], judge)
+
+
+def approx_within_bound(t_p, t_s, approx, w):
+    """lowp: the hardware approximations RCPPS / RSQRTPS have relative error at most 1.5 * 2^-12 (Intel SDM).  Each approximation atom is replaced by the exact
+    quantity times an error factor E_i = 1 + e_i; the intrinsic lane must then be the pure lane times ONE such factor identically (relative error |e_i| <=
+    1.5 * 2^-12 < 2^-11, float roundings aside as everywhere in class B); a lane that is the exact formula times two or more factors, or not a multiple of it at
+    all, is not within the documented bound by this argument"""
+    sub = {}
+    Es = []
+    for i, a in enumerate(sorted(set(approx), key=lambda q: q.id)):
+        y = a.args[1]
+        e = tm.inp('approx_err%d' % i, 0, w)
+        one = tm.fconst(w, 1.0)
+        exact = tm.arith('fdiv', one, y) if a.args[0] == 'x86.rcp' else tm.arith('fdiv', one, tm.mk('sqrt', (y,), w))
+        sub[a] = tm.arith('fmul', exact, e)
+        Es.append(e)
+    t2 = tm.substitute(t_s, sub)
+    pc = P.PCtx()
+    try:
+        S_, P_ = pc.fpoly(t2), pc.fpoly(t_p)
+    except (P.NonFinite, P.TooBig, ValueError) as e:
+        return R.UNDECIDED, 'lowp approximation: no normal form (%r)' % e
+    red = lambda q: P.reduce_sqrt(P.reduce_inv(q))
+    Ep = [pc.fpoly(e) for e in Es]
+
+    def zero(d):
+        d = red(d)
+        if d.is_zero():
+            return True
+        for a in P.atoms_of_kind(d, 'sqrt'):
+            if red(d * Poly.var(a)).is_zero():        # valid where the square root is non-zero (at 0 both builds return the same special value)
+                return True
+        return False
+    for e in Ep:
+        if zero(S_ - P_ * e):
+            return R.PROVED, 'intrinsic lane == pure lane * (1 + e), one hardware approximation with |e| <= 1.5 * 2^-12 < 2^-11'
+    for e in Ep:
+        if zero(S_ * e - P_):
+            return R.PROVED, 'intrinsic lane == pure lane / (1 + e), one hardware approximation with |e| <= 1.5 * 2^-12: relative error <= 1.5 * 2^-12 / (1 - 2^-11) < 2^-11'
+    if zero(S_ - P_):
+        return R.PROVED, 'the approximation cancels: same normal form as the pure build'
+    for e1 in Ep:
+        for e2 in Ep:
+            if zero(S_ - P_ * e1 * e2):
+                return R.UNDECIDED, 'intrinsic lane == pure lane * (1 + e)(1 + e\'): two approximation errors compound to 3 * 2^-12 > 2^-11; not within the bound by this argument'
+    return R.UNDECIDED, 'lowp approximation: the intrinsic lane is not the pure lane times one error factor: %s versus %s' % (P.show_poly(red(S_), limit=4), P.show_poly(red(P_), limit=4))
 
 
 def sign_xor_to_select(t):
